@@ -82,6 +82,11 @@ func (spec Spec) Validate() error {
 	if spec == (Spec{}) {
 		return fmt.Errorf("none of the validations are defined")
 	}
+	// the signature validator verifies requests against the access keys,
+	// without them Signer.Verify has no key store to look up secrets.
+	if spec.Signature != nil && len(spec.Signature.AccessKeys) == 0 {
+		return fmt.Errorf("signature: accessKeys is required")
+	}
 	return nil
 }
 
